@@ -487,6 +487,32 @@ func C03(r *core.Run) {
 	})
 	deaths = append(deaths, d6...)
 	envOuts = append(envOuts, walkOuts...)
+	// cmdline words with every combination of markers under every schedule with <= 2 deviations
+	cmdOuts, d7 := core.Parallel(r, "cmdwords", fpIn{Dir: dir}, r.Workers, func(in fpIn, shard, n int, emit func(envOut)) {
+		wd := filepath.Join(in.Dir, fmt.Sprint("cmdw-", shard))
+		c03Tree().Materialise(wd)
+		root := inproc.NewRoot(wd)
+		var out envOut
+		idx := 0
+		for _, shell := range []string{"unix", "windows"} {
+			for _, w := range []string{"vim", "vim@", "vim~", "vim~@", "vim@~", "vim@@", "vim~~", `vim\@~`, `vim\~@`, `vim~\@`, "v@m", "'vim~@", "a b@~"} {
+				for _, tpl := range []string{"##!> cmdline %s\n%s\n##!<\n", "##!> cmdline %s\nls\n%s\ncat~\n##!<\nfoo\n", "##!> assemble\n##!> cmdline %s\n%s\n##!<\n##!=>\nx\n##!<\n"} {
+					if idx++; idx%n != shard {
+						continue
+					}
+					text := fmt.Sprintf(tpl, shell, w)
+					outs, _, ex := outcomesUnder(2, func() string { return root.Generate(text).String() })
+					out.Runs += ex
+					if len(outs) > 1 {
+						out.Bad = append(out.Bad, fmt.Sprintf("`regex generate` of %q has %d outcomes under different map orders: %q", text, len(outs), clip(outs, 100)))
+					}
+				}
+			}
+		}
+		emit(out)
+	})
+	deaths = append(deaths, d7...)
+	envOuts = append(envOuts, cmdOuts...)
 	// the way standard input arrives (one write, several writes with pauses, more than a pipe buffer holds) is
 	// part of "any process": `generate -` must print what `generate FILE` prints for the same bytes
 	stdinOuts, d5 := core.Parallel(r, "stdin", fpIn{Dir: dir, Texts: menu}, r.Workers, func(in fpIn, shard, n int, emit func(envOut)) {
@@ -524,7 +550,13 @@ func C03(r *core.Run) {
 	if r.IsWorker() {
 		return
 	}
-	envRuns := 0
+	// walks and cmdwords are schedule executions of the in-process seam, not CLI runs
+	schedRuns := 0
+	for _, o := range append(append([]envOut{}, walkOuts...), cmdOuts...) {
+		schedRuns += o.Runs
+	}
+	r.Cov["walk_and_cmdword_schedule_executions"] = schedRuns
+	envRuns := -schedRuns
 	for _, o := range envOuts {
 		envRuns += o.Runs
 		for _, b := range o.Bad {
@@ -597,7 +629,7 @@ func C03(r *core.Run) {
 	r.Cov["traces_validated_against_impl"] = fresh + envRuns
 	r.Cov["exhaustive"] = len(deaths) == 0
 	r.Cov["bound"] = map[string]any{"l1_tokens": maxTok, "l1_deviations": 1, "l2_len_at_dev1": b1, "l2_len_at_dev2": b2, "l2_len_at_dev3": b3}
-	r.Cov["rule"] = "L1: every line of <= l1_tokens tokens over the 16-token directive alphabet parsed alone under every schedule with <= 1 deviation (makes any pattern the first tried); L2: every program of <= k lines over the line menu (static + L1-ambiguous lines) x {generate, format, format --check, update, compare} under every map-iteration schedule with <= d deviations; states = lines + (program, command) cases, transitions = executions; traces_validated = fresh uninstrumented processes whose outcome had to be a member of the explored outcome set"
+	r.Cov["rule"] = "L1: every line of <= l1_tokens tokens over the 16-token directive alphabet parsed alone under every schedule with <= 1 deviation (makes any pattern the first tried); L2: every program of <= k lines over the line menu (static + L1-ambiguous lines) x {generate, format, format --check, update, compare} under every map-iteration schedule with <= d deviations; states = lines + (program, command) cases, transitions = executions; traces_validated = fresh uninstrumented processes whose outcome had to be a member of the explored outcome set; stage stdin: `generate -` fed the same bytes as one write, byte + rest, three writes with pauses and as more than a pipe buffer, against `generate FILE`; stage walks: update --all and compare --all over a tree in which several assembly files address one operand, under every schedule within the deviation bound; stage env: seven environment variants per command"
 	r.Cov["samples"] = []any{
 		map[string]any{"level": "L1", "line": "##!##!> include inc"},
 		map[string]any{"level": "L2", "program": "##!> include-except inc ex -- a b b c\n", "cmd": "generate", "deviations": 2},
